@@ -6,6 +6,7 @@ import (
 	"bytes"
 	"context"
 	"errors"
+	"fmt"
 	"io"
 	"net"
 	"net/http"
@@ -14,6 +15,7 @@ import (
 	"strings"
 	"sync"
 	"testing"
+	"time"
 
 	"github.com/google/inverting-proxy/agent/metrics"
 	"github.com/gorilla/websocket"
@@ -41,6 +43,20 @@ func TestVerifC13(t *testing.T) {
 	var wrappedBody int64 = -1
 	var wrappedBodyErr string
 	wrapped := http.HandlerFunc(func(w http.ResponseWriter, r *http.Request) {
+		if r.URL.Path == "/events/stream" {
+			// a response that is produced over time (server-sent events): two pieces 1.5 s apart, each flushed
+			fl, canFlush := w.(http.Flusher)
+			w.Header().Set("Content-Type", "text/event-stream")
+			w.Header().Set("X-Verif-Can-Flush", fmt.Sprint(canFlush))
+			w.WriteHeader(200)
+			w.Write([]byte("data: first\n\n"))
+			if canFlush {
+				fl.Flush()
+			}
+			time.Sleep(1500 * time.Millisecond)
+			w.Write([]byte("data: second\n\n"))
+			return
+		}
 		n, err := io.Copy(io.Discard, r.Body)
 		mu.Lock()
 		wrappedSeen = append(wrappedSeen, r.Method+" "+r.URL.RequestURI())
@@ -113,6 +129,28 @@ func TestVerifC13(t *testing.T) {
 			mu.Unlock()
 			out.emit(map[string]interface{}{"kind": "route", "method": method, "path": p, "status": rec.Code, "location": rec.Header().Get("Location"), "wrapped_saw": ws})
 		}
+	}
+	// a streamed response on a path outside the shim prefix, over real HTTP: the first piece reaches the client when it is
+	// produced, not when the handler returns
+	{
+		srv := httptest.NewServer(h)
+		start := time.Now()
+		row := map[string]interface{}{"kind": "route-stream"}
+		resp, err := http.Get(srv.URL + "/events/stream")
+		if err != nil {
+			row["err"] = err.Error()
+		} else {
+			row["status"], row["handler_could_flush"] = resp.StatusCode, resp.Header.Get("X-Verif-Can-Flush")
+			first := make([]byte, 13)
+			if _, err := io.ReadFull(resp.Body, first); err == nil {
+				row["first_piece_after_ms"] = time.Since(start).Milliseconds()
+			}
+			rest, _ := io.ReadAll(resp.Body)
+			resp.Body.Close()
+			row["all_after_ms"], row["body"] = time.Since(start).Milliseconds(), string(first)+string(rest)
+		}
+		srv.Close()
+		out.emit(row)
 	}
 	// request bodies on paths outside the shim prefix: any size, with and without a declared length
 	for _, size := range []int{0, 1, 1000, 1 << 20, 1<<20 + 1, 3 << 20} {
